@@ -458,7 +458,12 @@ def r18_4(ctx, m):
         if not subs:
             raise AnalysisError("R18.4", dec.where(c), "the contig-name condition is computed out of sight (helper / loop): cannot tell which element of the SN tag it compares")
         outer = [s_ for s_ in subs if norm(s_).endswith("tags['SN'][0]")]
-        cmp1 = any(isinstance(x, ast.Compare) and isinstance(x.left, ast.Call) and norm(x.left.func) == "len" and const_value(x.comparators[0], None) == 1 and isinstance(x.left.args[0], (ast.Call, ast.SetComp)) for x in ast.walk(te))
+        cmp1 = any(isinstance(x, ast.Compare) and isinstance(x.left, ast.Call) and norm(x.left.func) == "len" and const_value(x.comparators[0], None) == 1 and isinstance(x.left.args[0], (ast.Call, ast.SetComp)) and "tags['SN']" in norm(x.left.args[0]) for x in ast.walk(te))
+        # the SN value tested with `in` / `not in` against a piece of text (the component's name): a substring test
+        sub_ = [x for x in ast.walk(cond_expr(c)) if isinstance(x, ast.Compare) and len(x.ops) == 1 and isinstance(x.ops[0], (ast.In, ast.NotIn)) and "tags['SN']" in norm(x.left) and isinstance(x.comparators[0], ast.Name) and x.comparators[0].id in dec.params]
+        if sub_:
+            ctx.violated("R18.4", dec.where(c), f"`{norm(sub_[0])[:70]}` tests the contig name of a scaffold node with `in` against the text `{sub_[0].comparators[0].id}`: that is a substring test (`chr1` in `chr10`), so a component that joins chr1 and chr10 through a haplotype passes as one contig", key_of(dec, f"sn-substring:{norm(sub_[0])[:40]}"))
+            continue
         if not outer and not cmp1:
             raise AnalysisError("R18.4", dec.where(c), f"the contig-name condition `{t[:100]}` is not of the recognised len(set(...)) != 1 form")
         # ... of *all* scaffold nodes of the chain: the list it ranges over is the traversal filtered by node type only
@@ -479,6 +484,66 @@ def r18_4(ctx, m):
     if len(deg) < 2 and any(isinstance(x, ast.Call) and isinstance(x.func, ast.Attribute) and x.func.attr == "neighbors" for x in walk_own(dec.node)):
         raise AnalysisError("R18.4", dec.where(), f"the degrees of the scaffold nodes are computed (`.neighbors()`), but only {len(deg)} skip condition(s) could be traced to them: the census is not read")
     ctx.check(len(deg) >= 2, "R18.4", dec.where(), "the degree census (two ends of degree 1, all others of degree 2) leads to the skip return", key_of(dec, f"degree-conditions:{len(deg)}"))
+    # ... as a decision table over (exactly two nodes of degree 1?, all other nodes of degree 2?): the component is given up in
+    # every world but (yes, yes)
+    census = {}
+    for st_ in walk_own(dec.node):
+        if isinstance(st_, ast.Assign) and isinstance(st_.targets[0], ast.Name) and isinstance(st_.value, (ast.ListComp, ast.GeneratorExp)) and "neighbors()" in norm(st_.value):
+            for c_ in ast.walk(st_.value):
+                if isinstance(c_, ast.Compare) and len(c_.ops) == 1 and isinstance(c_.ops[0], ast.Eq) and const_value(c_.comparators[0], None) in (1, 2) and "neighbors()" in norm(c_.left):
+                    census[st_.targets[0].id] = const_value(c_.comparators[0])
+    ones = [k for k, v in census.items() if v == 1]
+    twos = [k for k, v in census.items() if v == 2]
+    if len(ones) == 1 and len(twos) == 1 and len(deg) >= 1:
+        def atom(e):
+            if isinstance(e, ast.Compare) and len(e.ops) == 1 and isinstance(e.ops[0], (ast.Eq, ast.NotEq)):
+                l_, r_ = norm(e.left), norm(e.comparators[0])
+                pos = isinstance(e.ops[0], ast.Eq)
+                if {l_, r_} == {f"len({ones[0]})", "2"}:
+                    return ("A", pos)
+                if f"len({twos[0]})" in (l_, r_) and any(t_.replace(" ", "") in (x_.replace(" ", "") for x_ in (l_, r_)) for t_ in (f"len({m_g}) - 2" for m_g in {norm(a_.args[0]) for a_ in ast.walk(dec.node) if isinstance(a_, ast.Call) and norm(a_.func) == "len" and a_.args})):
+                    return ("B", pos)
+                if {l_.replace(" ", ""), r_.replace(" ", "")} & {f"len({twos[0]})+2"}:
+                    return ("B", pos)
+            return None
+
+        def tv(e, w):
+            if isinstance(e, ast.BoolOp):
+                vs = [tv(v_, w) for v_ in e.values]
+                if any(v_ is None for v_ in vs):
+                    return None
+                return all(vs) if isinstance(e.op, ast.And) else any(vs)
+            if isinstance(e, ast.UnaryOp) and isinstance(e.op, ast.Not):
+                v_ = tv(e.operand, w)
+                return None if v_ is None else not v_
+            a_ = atom(e)
+            if a_ is None:
+                return None
+            return w[a_[0]] == a_[1]
+
+        def own_text(c_):
+            return norm(c_.test) if isinstance(c_, ast.If) else " ".join(norm(x_) for x_ in c_.body)
+
+        census_conds = [c_ for c_ in deg if f"len({ones[0]})" in own_text(c_) or f"len({twos[0]})" in own_text(c_)]
+        if not census_conds:
+            raise AnalysisError("R18.4", dec.where(deg[0]), "cannot find the conditions that test the numbers of degree-1 / degree-2 nodes")
+        witness = None
+        for A_ in (True, False):
+            for B_ in (True, False):
+                w = {"A": A_, "B": B_}
+                skipped = False
+                for c_ in census_conds:
+                    if isinstance(c_, ast.If):
+                        v_ = tv(c_.test, w)
+                    else:
+                        asserts = [x_ for x_ in c_.body if isinstance(x_, ast.Assert)]
+                        v_ = None if len(asserts) != 1 else (lambda t_: None if t_ is None else not t_)(tv(asserts[0].test, w))
+                    if v_ is None:
+                        raise AnalysisError("R18.4", dec.where(c_), "cannot read a degree condition as a test on the number of degree-1 / degree-2 nodes of the collapsed graph")
+                    skipped = skipped or v_
+                if skipped != (not (A_ and B_)):
+                    witness = {"two_nodes_of_degree_1": A_, "all_others_degree_2": B_, "component_given_up": skipped}
+        ctx.check(witness is None, "R18.4", dec.where(census_conds[0]), "decision table of the degree census: the component is given up unless exactly two nodes of the collapsed graph have degree 1 and all others degree 2", key_of(dec, f"census-table:{witness}"), **({"witness": witness} if witness else {"worlds": 4}))
     def _pair_sources(c):
         """for a test on the loop variables of `for a, b in zip(X, X[1:])`: the closure text of X"""
         out = ""
